@@ -7,6 +7,12 @@ import (
 	"hash/fnv"
 	"io"
 	"math/rand"
+	"os"
+	"runtime"
+	"runtime/debug"
+	"sync"
+	"sync/atomic"
+	"time"
 
 	oerrors "github.com/ossrs/go-oryx-lib/errors"
 	"github.com/ossrs/go-oryx-lib/flv"
@@ -17,6 +23,7 @@ import (
 // C09: FLV files against spec/flv/FlvFile.tla.
 //
 //	kind "file"  (Gen_FlvFile):  one whole file = header flags + tags, with the specification's bytes (FileEnc)
+//	             (Gen_FlvSweep): the same, one file for EVERY body size (stage "flvsweep"): implementation boundaries
 //	kind "sched" (Gen_FlvSched): a behaviour of the call-level state machine: muxer calls, segment deliveries
 //	                             and demuxer calls interleaved, with the specification's result of every call
 
@@ -67,7 +74,68 @@ func main() { rp.Main(registry, batchRegistry) }
 
 func init() {
 	registry["flvfile"] = replayFile
+	batchRegistry["flvsweep"] = sweepBatch
 	registry["flvsched"] = replaySched
+}
+
+// ------------------------------------------------------------ stage "flvsweep"
+
+// sweepBatch replays the files of the size sweep (tens of thousands of independent files, the cost of each linear in
+// its body size because of the 1-byte segmentation) on several goroutines. Every case is a closed experiment with its
+// own muxer, demuxer, writer and reader; results come back in the order of the cases. A panic escaping the library is
+// the verdict of that case, a call that never returns is a "stall" verdict; a malformed case is a harness bug (exit 3).
+func sweepBatch(c *rp.Ctx, cases []json.RawMessage) []rp.Result {
+	out := make([]rp.Result, len(cases))
+	workers := runtime.NumCPU()
+	if workers > 8 {
+		workers = 8
+	}
+	if workers < 1 {
+		workers = 1
+	}
+	var next int64 = -1
+	var wg sync.WaitGroup
+	for w := 0; w < workers; w++ {
+		wg.Add(1)
+		go func() {
+			defer wg.Done()
+			for {
+				i := int(atomic.AddInt64(&next, 1))
+				if i >= len(cases) {
+					return
+				}
+				out[i] = guarded(c, i, cases[i])
+			}
+		}()
+	}
+	wg.Wait()
+	return out
+}
+
+func guarded(c *rp.Ctx, i int, raw json.RawMessage) rp.Result {
+	done := make(chan rp.Result, 1)
+	go func() {
+		var r rp.Result
+		defer func() {
+			if e := recover(); e != nil {
+				switch e.(type) {
+				case rp.HarnessBug, *json.UnmarshalTypeError, *json.SyntaxError, *json.InvalidUnmarshalError:
+					fmt.Fprintf(os.Stderr, "replay: harness bug on case %d: %v\n%s\n", i, e, debug.Stack())
+					os.Exit(3)
+				}
+				r = rp.Result{I: i, OK: false, What: fmt.Sprintf("panic: %v", e), Observed: string(debug.Stack())}
+			}
+			done <- r
+		}()
+		r = replayFile(c, i, raw)
+		r.I = i
+	}()
+	select {
+	case r := <-done:
+		return r
+	case <-time.After(rp.CaseTimeout):
+		return rp.Result{I: i, OK: false, What: fmt.Sprintf("stall: the case did not finish within %v (a call into the library never returned)", rp.CaseTimeout)}
+	}
 }
 
 // ------------------------------------------------------------------ readers
@@ -113,9 +181,11 @@ func isEOFClass(err error) bool {
 	return c == io.EOF || c == io.ErrUnexpectedEOF || err == io.EOF || err == io.ErrUnexpectedEOF
 }
 
-func caseSeed(seed int, raw []byte, salt string) int64 {
+// caseSeed does not depend on key order or spacing of the case's JSON (vcheck re-serialises a failing case before
+// replaying it alone: the "random" segmentation must then be the same one).
+func caseSeed(seed int, content int, salt string) int64 {
 	h := fnv.New64a()
-	h.Write(raw)
+	fmt.Fprintf(h, "%d", content)
 	h.Write([]byte(salt))
 	return int64(h.Sum64()>>1) ^ int64(seed)*0x9E3779B1
 }
@@ -125,7 +195,10 @@ func caseSeed(seed int, raw []byte, salt string) int64 {
 // demuxCheck reads `data` through the library's demuxer under one segmentation and compares every
 // returned value with the case. which = "library-written" / "specification-written".
 func demuxCheck(cs *flvCase, bodies [][]byte, data []byte, which, mode string, sseed int64) error {
-	r := &segReader{data: data, mode: mode, rng: rand.New(rand.NewSource(sseed))}
+	r := &segReader{data: data, mode: mode}
+	if mode == "random" {
+		r.rng = rand.New(rand.NewSource(sseed))
+	}
 	d, err := flv.NewDemuxer(r)
 	if err != nil {
 		return fmt.Errorf("NewDemuxer: %v", err)
@@ -226,8 +299,9 @@ func replayFile(c *rp.Ctx, i int, raw json.RawMessage) rp.Result {
 	}
 
 	// (b) library-written and (c) specification-written bytes are demuxed to the tags written, under each segmentation
+	content := rp.ContentHash(raw)
 	for _, mode := range []string{"whole", "one", "random"} {
-		sseed := caseSeed(c.Seed, raw, mode)
+		sseed := caseSeed(c.Seed, content, mode)
 		if err := demuxCheck(&cs, bodies, want, "specification-written", mode, sseed); err != nil {
 			if res.OK {
 				res = rp.Result{OK: false, Nontriv: true, What: err.Error()}
@@ -308,7 +382,22 @@ func locate(off int, tags []flvTag) string {
 
 // classifyFile names the deviations the specification knows (FlvFile.tla, constant Deviation).
 func classifyFile(got, want []byte, tags []flvTag) string {
-	if len(got) != len(want) || len(tags) == 0 {
+	if len(tags) == 0 {
+		return ""
+	}
+	if d := len(want) - len(got); d >= 1 && d <= 4 {
+		// mux-scratch-trunc: the layout with the last d bytes of ONE tag's PreviousTagSize missing
+		p := 13
+		for _, t := range tags {
+			e := p + 15 + t.N // end of this tag in the layout
+			if e-d <= len(got) && bytes.Equal(got[:e-d], want[:e-d]) && bytes.Equal(got[e-d:], want[e:]) {
+				return "C09/mux-scratch-trunc"
+			}
+			p = e
+		}
+		return ""
+	}
+	if len(got) != len(want) {
 		return ""
 	}
 	pts := append([]byte(nil), want...)
